@@ -85,6 +85,21 @@ pub fn corpus(seed: u64, n: u64) -> Vec<Case> {
             }
             case = sib;
         }
+        if i % 12 == 4 {
+            // an Authorization parameter repeated under another letter case with another value: whatever the verdict on such a
+            // request is, it is the same verdict every time (a lookup that scans a hash map for a case-insensitive match is not)
+            for h in case.wire.headers.iter_mut().filter(|h| h.0.eq_ignore_ascii_case(b"authorization")) {
+                let extra: &[u8] = r.pick_bytes(&[
+                    b", credential=AKIDSOMEONEELSE/20150830/us-east-1/service/aws4_request",
+                    b", CREDENTIAL=AKIDSOMEONEELSE/20150830/us-east-1/service/aws4_request",
+                    b", signature=0000000000000000000000000000000000000000000000000000000000000000",
+                    b", SIGNATURE=00",
+                    b", signedheaders=host",
+                    b", Signedheaders=host;x-amz-date, credential=x, SIGNATURE=y",
+                ]);
+                h.1.extend_from_slice(extra);
+            }
+        }
         if i % 9 == 8 {
             // hostile: raw byte noise in the URI and a header
             let p = r.usize_below(case.wire.uri.len());
